@@ -207,13 +207,11 @@ Definition C14_lz4f_st_reads_exactly_corrected_full_statement : Prop :=
     parse_desc (s_in s) = Some (d, r1) -> (f_bcrc d = false \/ f_ccrc d = true) ->
     s_in s' = rest.
 
-Theorem C14_hint_within_frame_refuted : ~ FrameDHint.hint_within_frame_statement.
-Proof. exact FrameDHint.hint_within_frame_refuted. Qed.
-Print Assumptions C14_hint_within_frame_refuted.
-
+(* F21 is repaired in /repo: the refutation C14_hint_within_frame_refuted of the unrepaired code is gone; the witness frame now
+   gets the exact hint (14 bytes left, 14 asked for).  hint_within_frame_statement itself is open again (not proved). *)
 Example C14_ex_hint_witness :
   frame_decode spec_decode false [] FrameDHint.hw_frame = Some ([1; 2; 3; 4; 5; 6; 7; 8; 9; 10], []) /\
   bytes_ok FrameDHint.hw_frame = true /\ FrameD.zlen FrameDHint.hw_frame = 30 /\
   let r := snd (FrameD.decompress spec_decode FrameD.dctx_init (FrameD.ztake 16 FrameDHint.hw_frame) 100 (FrameD.mkO false false false)) in
-  FrameD.r_consumed r = 16 /\ FrameD.r_ret r = 18.
+  FrameD.r_consumed r = 16 /\ FrameD.r_ret r = 14.
 Proof. exact FrameDHint.hint_witness. Qed.
